@@ -5,6 +5,7 @@ import FixModel.Pool
 import FixModel.Framing
 import FixModel.Timer
 import FixModel.Gen
+import FixModel.StoreAlias
 import Std.Data.HashMap
 /-!
 # fixdriver — one operation per input line, one result per output line
@@ -120,6 +121,19 @@ def stepLine (line : String) : String :=
             | some v => "some " ++ dBytes v
             | none => "none")) args
       | "pool" => poolOp args
+      | "alias" =>
+        -- s:<obj>:<body> = Send of object <obj> carrying <body>; r:<b>:<e> = ResendRequest b..e (answers separated by |)
+        let step (acc : StoreAlias.St × List String) (a : String) : Option (StoreAlias.St × List String) :=
+          match a.splitOn ":" with
+          | ["s", o, b] => do
+              let o ← o.toNat?; let b ← b.toNat?
+              pure (StoreAlias.send acc.1 o b, acc.2)
+          | ["r", b, e] => do
+              let b ← b.toNat?; let e ← e.toNat?
+              let r := StoreAlias.resend acc.1 b e
+              pure (acc.1, acc.2 ++ [",".intercalate (r.map fun c => toString c.seq ++ ":" ++ toString c.body)])
+          | _ => none
+        (args.foldlM step (({} : StoreAlias.St), ([] : List String))).map fun r => " | ".intercalate r.2
       | "gen" => runP (do
           let sc ← pSchema
           let lines := (renderGen (gen sc)).toArray.qsort (· < ·) |>.toList
